@@ -11,7 +11,7 @@ import (
 type monC05 struct{}
 
 func terminalOutcome(out string) bool {
-	return out == OK || out == NilResp || out == Perm || out == PermWrap || out == WrongType || out == Late || out == RespPerm || out == WrongTrans || out == WrongPerm
+	return out == OK || out == NilResp || out == Perm || out == PermWrap || out == WrongType || out == WrongNamed || out == Late || out == RespPerm || out == WrongTrans || out == WrongPerm
 }
 
 func (monC05) AtState(x *Exec) {
@@ -128,7 +128,7 @@ func (monC05) AtEnd(x *Exec) {
 					if !a.HasErr || a.Permanent {
 						bad("want a transient error, got err=%v permanent=%v", a.HasErr, a.Permanent)
 					}
-				case WrongType, WrongTrans, WrongPerm:
+				case WrongType, WrongNamed, WrongTrans, WrongPerm:
 					if !a.HasErr || !a.Permanent || a.HasResp {
 						bad("a wrong-typed response must fail the action permanently without storing the response, got err=%v permanent=%v resp=%v", a.HasErr, a.Permanent, a.HasResp)
 					}
@@ -149,7 +149,7 @@ func (monC05) AtEnd(x *Exec) {
 // followed, when j<=retries, by one final outcome.
 func retryScripts(retries int, late bool) [][]string {
 	retryable := []string{Trans, Overrun, RespTrans}
-	final := []string{OK, Perm, WrongType, NilResp, RespPerm, WrongTrans, WrongPerm, PermWrap}
+	final := []string{OK, Perm, WrongType, NilResp, RespPerm, WrongTrans, WrongPerm, PermWrap, WrongNamed}
 	if late {
 		final = append(final, Late)
 	}
@@ -200,7 +200,7 @@ func init() {
 	register(&PropDef{
 		ID:    "C05",
 		Level: "model_checking",
-		Rule: "family F-retry: one scripted action as a sequence action and as one of two parallel pre-check actions, Retries 0..2 (3), ALL canonical outcome scripts over {ok, nil-response, transient, permanent, wrong type, overrun, late answer after the timeout, well-typed response WITH a transient/permanent error, wrong-typed response WITH a transient/permanent error, permanent error wrapping a non-permanent cause} " +
+		Rule: "family F-retry: one scripted action as a sequence action and as one of two parallel pre-check actions, Retries 0..2 (3), ALL canonical outcome scripts over {ok, nil-response, transient, permanent, wrong type, overrun, late answer after the timeout, well-typed response WITH a transient/permanent error, wrong-typed response WITH a transient/permanent error, permanent error wrapping a non-permanent cause, response of a different type with the same printed name} " +
 			"(j retryable outcomes then one final outcome); the action timeout is 5 s and at every parked plugin call the explorer chooses between 'answer' and 'let the timer fire' (all combinations within the deviation bound), retry back-off timers are fake-clock ticks; " +
 			"invocation rules are checked at every invocation, stored attempts (read from the real vault) are matched 1:1 against the invocations at the end; distinct_nontrivial = distinct states in which two or more logical threads were enabled",
 		Assumptions: []string{"a free worker-pool runner always exists (64 runners)", "I/O granularity", "retry policy without jitter (RandomizationFactor 0)", "continuous-check actions are excluded (their attempts are reset on every run)"},
